@@ -19,6 +19,8 @@ import traceback
 VERIF = os.path.dirname(os.path.dirname(os.path.abspath(__file__)))
 sys.path.insert(0, VERIF)
 REPO = os.environ.get('VERIF_REPO', '/repo')
+# evidence and replay files go to /verif unless a scratch run (self-test, seeded-change matrix on a copy) redirects them
+OUT = os.environ.get('VERIF_OUT_DIR', VERIF)
 PY = '/venv/bin/python'
 PYINC = '/root/.pyenv/versions/3.12.1/include/python3.12'
 
@@ -321,7 +323,7 @@ def check(pid, cfg, args):
             shutil.rmtree(ctree, ignore_errors=True)
 
     # ------------------------------------------------------------ verdict
-    os.makedirs(os.path.join(VERIF, 'replays', pid), exist_ok=True)
+    os.makedirs(os.path.join(OUT, 'replays', pid), exist_ok=True)
     exit_code = 0
     printed_known = set()
     for lbl, k in known_obl:
@@ -346,7 +348,7 @@ def check(pid, cfg, args):
             'witnesses': witnesses,
         }
         h = hashlib.sha256(json.dumps(rec, sort_keys=True, default=str).encode()).hexdigest()[:10]
-        replay_path = os.path.join(VERIF, 'replays', pid, '%s.%s.json' % (
+        replay_path = os.path.join(OUT, 'replays', pid, '%s.%s.json' % (
             re.sub(r'[^A-Za-z0-9_.]+', '_', (witnesses[0]['sig'] if witnesses else in_ledger_failed[0][0]))[:80], h))
         with open(replay_path, 'w') as f:
             json.dump(rec, f, indent=1, default=str)
@@ -425,8 +427,8 @@ def check(pid, cfg, args):
     ev = {'property_id': pid, 'tier': tier, 'seed': seed, 'level': level, 'coverage': coverage,
           'assumptions': STANDING + assumption_scan(regs) + cfg.get('assumptions', []),
           'wall_s': round(time.time() - t0, 2), 'violations': nviol}
-    os.makedirs(os.path.join(VERIF, 'evidence'), exist_ok=True)
-    with open(os.path.join(VERIF, 'evidence', pid + '.json'), 'w') as f:
+    os.makedirs(os.path.join(OUT, 'evidence'), exist_ok=True)
+    with open(os.path.join(OUT, 'evidence', pid + '.json'), 'w') as f:
         json.dump(ev, f, indent=1, default=str)
     for ln in lines:
         print(ln)
